@@ -24,6 +24,7 @@ import LarkVerif.Mangle
 import LarkVerif.Priority
 import LarkVerif.Choice
 import LarkVerif.Recons
+import LarkVerif.ForestVisit
 import Std.Data.HashMap
 /-! Line-protocol driver: one JSON request per stdin line (`{"op": ...}`), one JSON answer per stdout line.
     Runs the *executable definitions the theorems are about*.  Not part of the proof library. -/
@@ -609,6 +610,23 @@ def handle (j : Json) : Except String Json := do
   | "lr_feed" => runLrFeed j
   | "rule_size" => runRuleSize j
   | "choose" => runChoose j
+  | "forest_visit" =>
+    -- {"nodes": [id...], "kids": [[id, [child...]]...], "toks": [id...], "sv": bool, "root": id}: the event sequence of ForestVisitor.visit
+    let nodes ← natListOf (← j.getObjVal? "nodes")
+    let toks ← natListOf (← j.getObjVal? "toks")
+    let sv ← boolOf (← j.getObjVal? "sv")
+    let root ← getNat j "root"
+    let kidsL ← (← getArr j "kids").mapM fun a => do
+      match (← a.getArr?).toList with
+      | [x, y] => pure ((← x.getNat?), (← natListOf y))
+      | _ => throw "kids"
+    let kM : Std.HashMap Nat (List Nat) := kidsL.foldl (fun m (a, b) => m.insert a b) {}
+    let tM : Std.HashMap Nat Unit := toks.foldl (fun m a => m.insert a ()) {}
+    let g : VisitProto.Graph := { nodes := nodes, kids := fun n => (kM.get? n).getD [], isTok := fun n => tM.contains n }
+    let evs := VisitProto.visit g sv root
+    let evJ : VisitProto.Ev → Json
+      | .enter n => natArr [0, n] | .leave n => natArr [1, n] | .tok n => natArr [2, n] | .cycle n => natArr [3, n]
+    pure (Json.mkObj [("events", Json.arr (evs.map evJ).toArray), ("discipline", Json.bool (VisitProto.replay [] evs == some []))])
   | _ => throw s!"unknown op {op}"
 
 partial def loop (h : IO.FS.Stream) (out : IO.FS.Stream) : IO Unit := do
